@@ -9,6 +9,7 @@ from sexp import A, dumps
 
 PROP = "C18"
 LEAN_TARGETS = ["HugrVerif.Props.C18"]
+DRIVE_TARGETS = ["HugrVerif.Drive.BiMap"]
 RULE = (
     "operation sequences over a pool of pairwise-unequal hashable values including the falsy ones "
     "0, '', () (plus a stream mixing the ==-equal 0/False/0.0); quick: random sequences of length <= 40; "
